@@ -489,6 +489,14 @@ def d55():
   return ('parameters given as arrays/lists are kept by reference; editing the caller\'s object afterwards changes the accepted device with no validation: ' + '; '.join(out)) if out else None
 
 
+def d56():
+  try:
+    d = Device('d', 3, np.array([[2, 1]]*3, dtype=np.uint8))
+  except ValueError:
+    return None
+  return 'Device bounds given as an unsigned-integer array with low 2 > high 1 are accepted (hbounds - lbounds wraps around): lbounds %s hbounds %s' % (d.lbounds, d.hbounds)
+
+
 if __name__ == '__main__':
   names = [a for a in sys.argv[2:]] or sorted(k for k in globals() if k[0] == 'd' and k[1:3].isdigit())
   bad = 0
